@@ -35,7 +35,7 @@ class C09:
                    "tables of versions with no interpreter are only checked for internal consistency and against "
                    "the historical corpus files"]
     exhaustive = {"quick": True, "thorough": True}
-    budgets = {"quick": {"shards": 8, "examples": 200, "seconds": 70},
+    budgets = {"quick": {"shards": 8, "examples": 2000, "seconds": 70},
                "thorough": {"shards": 16, "examples": 5000, "seconds": 600}}
     minimise = False
 
